@@ -116,6 +116,36 @@ def q_shape(shape, chans):
                  desc=f"normalise on shape {' '.join(shape)} with {chans} channel(s)")
 
 
+def q_renormalise(kind):
+    """normalise, make the same object ill-formed through the relative view, normalise again"""
+    def fn(ctx):
+        msgs = build(ctx, ["ON", "W", "OFF", "W"], 1)
+        seq = rel_sequence(msgs)
+        seq.normalise()
+        p = ctx.int("px", 0, 1)
+        if kind == "add_relative":
+            seq.add_relative_message(on(0, p, 5))
+            seq.add_relative_message(wait(ctx.int("wx", 1, 9)))
+        elif kind == "concatenate":
+            seq.concatenate([rel_sequence([off(0, p), wait(ctx.int("wx", 1, 9)), on(0, p, 5)])])
+        elif kind == "overwrite":
+            seq.overwrite_relative_messages([on(0, p, 5), wait(ctx.int("wx", 1, 9)), on(0, p, 6), wait(2)])
+        else:
+            for m in seq.messages_rel():
+                if m.message_type == OFF:
+                    m.note = m.note + 1
+        in_evs, total = rel_events([m.copy() for m in raw_rel(seq)])
+        seq.normalise()
+        er, dr = rel_events(raw_rel(seq))
+        ctx.must("alternation", wellformed_alternation(er), disc="renormalise")
+        ctx.must("duration_unchanged", eq(dr, total), disc="renormalise")
+        ea, da = abs_events(raw_abs(seq))
+        ctx.must("abs_view_same_duration", eq(da, total), disc="renormalise")
+        return [obs_rel(raw_rel(seq))]
+    return Query(f"renormalise/{kind}", fn, ["alternation", "duration_unchanged", "abs_view_same_duration"],
+                 desc=f"normalise, {kind}, normalise again")
+
+
 def queries(tier, seed):
     qs = []
     maxlen = 4 if tier == "quick" else 5
@@ -124,6 +154,8 @@ def queries(tier, seed):
             qs.append(q_shape(list(shape), 1))
             if (tier == "thorough" and n <= 4 or n <= 3) and sum(1 for k in shape if k in ("ON", "OFF")) >= 2:
                 qs.append(q_shape(list(shape), 2))
+    for kind in ("add_relative", "concatenate", "overwrite", "edit"):
+        qs.append(q_renormalise(kind))
     for shape in TARGETED:
         qs.append(q_shape(shape, 2))
         if len(shape) > maxlen:
